@@ -234,7 +234,7 @@ def cleanup_consts():
         raise TranslatorError("_clean_up_state: removal condition not found")
     if ast.unparse(cond.body[0]) != "states_to_be_removed.append(flow_state.uid)":
         raise TranslatorError("_clean_up_state: unexpected body of the removal condition")
-    needs_done = needs_na = False
+    needs_done = needs_na = needs_unneeded = False
     age = None
     cmp_gt = None
     for t in cond.test.values:
@@ -243,6 +243,8 @@ def cleanup_consts():
             needs_done = True
         elif s == "flow_state.activated == 0":
             needs_na = True
+        elif s == "flow_state.uid not in needed_parent_uids":
+            needs_unneeded = True
         elif isinstance(t, ast.Compare) and len(t.ops) == 1:
             left, right = ast.unparse(t.left), t.comparators[0]
             if left != "datetime.now() - flow_state.status_updated":
@@ -262,8 +264,17 @@ def cleanup_consts():
             raise TranslatorError("_clean_up_state: unexpected conjunct " + s)
     if age is None:
         raise TranslatorError("_clean_up_state: no age test")
+    # needed_parent_uids: the parent_uid of every flow state that is not done or is activated,
+    # computed BEFORE the removal condition is evaluated
+    if needs_unneeded:
+        assigns = [n for n in ast.walk(fn) if isinstance(n, ast.Assign) and ast.unparse(n.targets[0]) == "needed_parent_uids"]
+        want = ("{flow_state.parent_uid for flow_state in state.flow_states.values() "
+                "if not _is_done_flow(flow_state) or flow_state.activated != 0}")
+        if len(assigns) != 1 or ast.unparse(assigns[0].value) != want or assigns[0].lineno > cond.lineno:
+            raise TranslatorError("_clean_up_state: needed_parent_uids of unexpected shape: "
+                                  + (ast.unparse(assigns[0].value) if assigns else "missing"))
     out.update({"cleanup_age_s": age, "cleanup_cmp_gt": cmp_gt, "cleanup_needs_done": needs_done,
-                "cleanup_needs_not_activated": needs_na})
+                "cleanup_needs_not_activated": needs_na, "cleanup_needs_unneeded": needs_unneeded})
     # step 3b: removed uids are dropped from every remaining child list and from open scopes
     src_fn = ast.unparse(fn)
     out["cleanup_purges_children"] = ("flow_state.child_flow_uids[:] = [uid for uid in flow_state.child_flow_uids if uid not in removed_uids]" in src_fn)
@@ -321,6 +332,7 @@ def emit():
     L.append(f"Definition cleanup_needs_not_activated : bool := {coq_bool(k['cleanup_needs_not_activated'])}.")
     L.append(f"Definition done_statuses : list string := {coq_str_list(k['done_statuses'])}.")
     L.append(f"Definition cleanup_before_loop : bool := {coq_bool(k['cleanup_before_loop'])}.")
+    L.append(f"Definition cleanup_needs_unneeded : bool := {coq_bool(k['cleanup_needs_unneeded'])}.")
     L.append(f"Definition cleanup_purges_children : bool := {coq_bool(k['cleanup_purges_children'])}.")
     L.append(f"Definition cleanup_purges_scopes : bool := {coq_bool(k['cleanup_purges_scopes'])}.")
     L.append(f"Definition cleanup_actions_by_reference : bool := {coq_bool(k['cleanup_actions_by_reference'])}.")
